@@ -1,7 +1,6 @@
 package main
 
 import (
-	"context"
 	"fmt"
 	"go/token"
 	"go/types"
@@ -534,6 +533,15 @@ func (ft *FT) exitObligations(pos token.Pos, st *State, guard Term, results []Te
 	if ft.con.HasMod && !ft.con.Trusted {
 		ft.frameObligations(pos, st, guard)
 	}
+	// lock discipline: what the function locked on its own parameters is released on every exit
+	if ft.lockDiscipline() {
+		ectx := ft.specCtx(ft.entry, ft.entry)
+		for _, txt := range directParamLocks(ft.fn) {
+			if l, ok := ft.lockExprTerm(ectx, txt); ok {
+				ft.oblige("lock-balance", token.NoPos, txt+" released @ "+ft.srcText(pos), guard, eq(app("select", ft.get(st, heldKey(ft)), l), "0"), true)
+			}
+		}
+	}
 }
 
 // frameTargets: modifies targets of the function under verification, evaluated at entry.
@@ -672,6 +680,10 @@ func (e *Engine) verifyFunc(key string, sem chan struct{}) *FuncResult {
 				if c.sites == 0 && !e.calleeKnown(n) {
 					// vacuity guard: a call-site precondition keyed by a name no function has checks nothing
 					fr.Errors = append(fr.Errors, fmt.Sprintf("callpre %s %q: no function of that name in the program (contract typo?)", n, c.Text))
+				} else if c.sites == 0 && c.Must {
+					// vacuity guard: the function no longer calls what the clause constrains (the call may have moved
+					// into a helper, out of reach of this contract)
+					fr.Errors = append(fr.Errors, fmt.Sprintf("callpre %s %q applies at no call site of this function", n, c.Text))
 				}
 			}
 		}
@@ -744,12 +756,12 @@ func (e *Engine) verifyFunc(key string, sem chan struct{}) *FuncResult {
 				// advisory obligation: one quick attempt, never gates the check
 				f := filepath.Join(e.workdir, sanitizeFile(fmt.Sprintf("%s.%d", key, i))+".smt2")
 				_ = os.WriteFile(f, []byte(query+"(check-sat)\n"), 0o644)
-				r = runSolver(context.Background(), "z3-new", "z3-new", f, 1*time.Second, false)
+				r = poolSolve(query, 1*time.Second, false)
 			} else if o.Cover {
 				// vacuity cover: only an `unsat` answer matters; a quick single-solver attempt suffices
 				f := filepath.Join(e.workdir, sanitizeFile(fmt.Sprintf("%s.%d", key, i))+".smt2")
 				_ = os.WriteFile(f, []byte(query+"(check-sat)\n"), 0o644)
-				r = runSolver(context.Background(), "z3-new", "z3-new", f, 2*time.Second, false)
+				r = poolSolve(query, 2*time.Second, false)
 			} else {
 				r = solve(e.workdir, fmt.Sprintf("%s.%d", key, i), query, e.timeout, true)
 			}
